@@ -8,12 +8,15 @@ PID = "C02"
 PROPS_MODULE = "Props.C02"
 THEOREMS = ["hp_closed_form_solves_ode", "hp_closed_form_initial", "hp_solution_unique", "hp_generations_identical",
             "hp_reference_encloses_closed_form"]
-REQUIRED = ["Props/C02.v", "Model/DecayCheck.v"]
+EXTRA_PROPS = {"Props.C02b": ["hp_eval_error", "hp_readout_error", "default_hp_readout_error"]}
+REQUIRED = ["Props/C02b.v", "Proofs/CertDefault/ExactCondCert.v", "Props/C02.v", "Model/DecayCheck.v"]
 TRANSLATORS = ["tr_data", "synth_dataset", "tr_data_synth", "tr_tables", "tr_pure"]
 SHAPE_KEYS = ["InventoryHP::decay", "InventoryHP::__init__", "InventoryHP::numbers", "AbstractInventory::_setup_decay_calc",
               "AbstractInventory::_perform_decay_calc", "AbstractInventory::_convert_decay_time", "load_dataset", "DecayMatricesSympy"]
-PARTIAL = ["hp_precision (4 m eps S_i error bound from 320 working digits) is not proved; relative accuracy 1e-13 is decided per case against "
-           "the proved enclosure, above the guard 1e-315 x (atoms of the ancestors)",
+PARTIAL = ["Props/C02b.v proves the precision of the high-precision class for ALL inputs on a MODEL of SymPy's evaluation (every product and sum rounded to "
+           "the working precision, any accumulation order, no underflow; u <= 2^-1060 for 320 digits): |double result - exact| <= 2^-53 |exact| + 2^-1030 x (initial atoms) "
+           "+ 2^-1075; SymPy/mpmath are not modelled bit for bit - the tie of that model to the code is the per-case comparison with the proved enclosure "
+           "(relative 1e-13 above the guard 1e-315 x ancestors' atoms)",
            "the property as written is FALSE below that guard (known finding F10: fixed 320 digits cannot give relative accuracy for results near 1e-300)"]
 TRUSTED_BASE = [
     "Coq 8.16.1 kernel incl. vm_compute",
